@@ -145,6 +145,20 @@ CHECKS["C10"] = dict(
          "Prefix enumeration is complete per sampled input, token damage is capped per input in the quick tier; inputs are sampled. Time "
          "proportionality is judged as 'within the step / 10 s watchdog budget for inputs < 2 KiB'.")
 
+CHECKS["C20"] = dict(
+    level="exploration", design="DESIGN.md §3 C20",
+    technique=TECH + ": one observed program is executed alone (twice), after generated disturbers in a later and in an earlier VM of the same process, and beside a disturber on a second real thread under a seeded baton schedule that switches threads at instruction granularity; byte-wise comparison of the observed instance's output across the arrangements",
+    text="P = a generated program (control structures, scoping, namespaces; no time / random / sleep) framed by 5-9 probes of everything that could "
+         "be process-wide: number formatting (str, format), __COUNTER__, #ifdef of a define, config classes, variables in all five namespaces under the "
+         "names the disturbers write, type names of rarely used types, comparison results, supportInfo. Q1..Q3 = generated programs that use P's global "
+         "names plus disturbing statements: toFixed n, __COUNTER__ uses, #define, configparse__, writes to every namespace, with-blocks, first "
+         "use of types. Five executions per case, each in a fresh simulator process: P alone in the first VM (twice: determinism), P in a VM created "
+         "after the Q ran in their own VMs (kept alive or destroyed), P in a VM created before them and run after them, and P beside Q1: two VMs "
+         "on two real threads of which the baton lets one run at a time, the seed deciding at every instruction which. P's markers, diagnostics "
+         "(level, code, text) and run result must be identical in all five.",
+    note="The baton scheduler serialises the threads: a data race on unsynchronised process-wide state (first-use type registration in type.h) cannot "
+         "show as corruption here, only as logical interference; stated as a limit in DESIGN.md.")
+
 CHECKS["C15"] = dict(
     level="exploration", design="DESIGN.md §3 C15",
     technique=TECH + ": generated histories of 1-4 config loads through three real entry points (parser as the CLI uses it, configparse__ from a script, sqfvm_load_config between API calls) interleaved with probe scripts; executable reference tree as oracle; cycle attempts across loads judged for bounded termination and acyclicity",
